@@ -231,7 +231,9 @@ def run(case):
                             v[i] = min(max(v[i], spec["limits"][nm][0]), spec["limits"][nm][1])
                     c = cost_free(v)
                     if c < c_hat - 1e-3:
-                        raise Violation(f"not-a-local-minimum[{backend}:{spec['type']}:{spec.get('dea', 'nonlinear')}{',limits' if spec.get('limits') else ''}]",
+                        opt_ = getattr(results[backend][2]._fitter.minimizer, "_opt_result", None) if backend == "scipy" else None
+                        fail_tag = ",scipy-reported-failure" if opt_ is not None and not bool(getattr(opt_, "success", True)) else ""  # bug model of KF-C06-2
+                        raise Violation(f"not-a-local-minimum[{backend}:{spec['type']}:{spec.get('dea', 'nonlinear')}{',limits' if spec.get('limits') else ''}{fail_tag}]",
                                         f"full cost at reported optimum {dict(zip(free, v_hat))} is {c_hat!r}, but {c!r} at {dict(zip(free, v))} "
                                         f"({s} sigma away); reference optimum {dict(zip(free, xr))} with cost {fr!r}")
         # (4) iterative: fixed point
@@ -299,7 +301,8 @@ KNOWN = {
     "KF-C06-1": lambda sub, case, v: bool(case["spec"].get("limits")) and (v.facet.startswith("not-a-local-minimum[scipy") or "worse=scipy,limits" in v.facet),
     # scipy.optimize.minimize(BFGS) returns success=False / nit=0 ("precision loss": the first unit-Hessian step x - grad lands where the model overflows) and
     # MinimizerScipyOptimize.minimize does not look at OptimizeResult.success: do_fit returns normally with the starting values as "optimum"
-    "KF-C06-2": lambda sub, case, v: not case["spec"].get("limits") and v.facet.startswith("backends-disagree") and v.facet.endswith("worse=scipy,scipy-reported-failure]"),
+    "KF-C06-2": lambda sub, case, v: not case["spec"].get("limits") and (v.facet.startswith("backends-disagree") and v.facet.endswith("worse=scipy,scipy-reported-failure]")
+                                                                                    or v.facet.startswith("not-a-local-minimum[scipy") and v.facet.endswith(",scipy-reported-failure]")),
 }
 
 SUBS = [
